@@ -341,6 +341,13 @@ def run(tier, seed):
          A.render(l=None, eom=True), 3),
         (corner("unit8", prefix=[("declare", "g", "rydberg_global")], qubits=2, name="eom-equal-to-channel", bw=10, eom=dict(mod_bandwidth=10)),
          A.render(l=None, eom=True), 3),
+        # very fast channels: rise time 1 ns (the EOM buffer's equivalent bandwidth sits exactly at the 480 MHz limit) and 2 ns
+        (corner("unit8", prefix=[("declare", "g", "rydberg_global")], qubits=2, name="eom-channel-bw-300", bw=300, eom=dict(mod_bandwidth=100)),
+         A.render(l=None, eom=True), 3),
+        (corner("unit8", prefix=[("declare", "g", "rydberg_global")], qubits=2, name="eom-channel-bw-479", bw=479, eom=dict(mod_bandwidth=240)),
+         A.render(l=None, eom=True), 2),
+        (corner("unit8", prefix=[("declare", "g", "rydberg_global")], qubits=2, name="eom-channel-bw-240", bw=240, eom=dict(mod_bandwidth=40)),
+         A.render(l=None, eom=True), 2),
     ]
     cov = seqx.run_plan(res, plan, MONITORS)
     cov["evaluations"] = len(cases) + cov["transitions"]
